@@ -132,6 +132,7 @@ func record(sum *hutil.Summary, prop string, sc *scenario, res runResult, v verd
 	sum.Dist(fmt.Sprintf("phases_%d", len(sc.Phases)))
 	sum.Dist("sync_" + res.Sync)
 	sum.Dist(fmt.Sprintf("gomaxprocs_%d", sc.GoMaxProcs))
+	sum.Dist("log_level_" + map[bool]string{true: "default", false: sc.LogLevel}[sc.LogLevel == ""])
 	ws := sc.writeStats()
 	sum.Distribution["total_writes"] += ws.writes
 	sum.Distribution["total_writes_ending_mid_record"] += ws.split
